@@ -194,4 +194,274 @@ def text11 : K11 String String → String
   | .cOnly => "C"
   | .text => "C  EFFECTIVE COEFFICIENTS, GENERATED FOR TESTING; IGRD= 2 Z1 = X"
 
+/-! ## ADF15 -/
+
+def lowerCs (cs : Cs) : Cs := cs.map Char.toLower
+
+/-- case-insensitive literal prefix; the rest on success -/
+def ciLit (p : String) (cs : Cs) : Option Cs :=
+  let pl := lowerCs p.toList
+  if pl.isPrefixOf (lowerCs (cs.take pl.length)) && cs.length ≥ pl.length then some (cs.drop pl.length) else none
+
+def isC (c : Char) : Bool := c == 'C' || c == 'c'
+
+/-- `^\s*(\d*) {4}/(.*)/?\s*$` -/
+def fileHeader15 (s : String) : Bool :=
+  let cs := s.toList
+  let wsRun := cs.takeWhile isWs
+  let a := cs.dropWhile isWs
+  let (ds, b) := digits a
+  if ds ≠ [] then startsWithCs "    /".toList b
+  else b.head? == some '/' && wsRun.length ≥ 4 && (wsRun.reverse.take 4).all (· == ' ')
+
+/-- the rest of the line after `^\s*[0-9]*\.[0-9]*` -/
+def wlPrefix (cs : Cs) : Option Cs :=
+  let (_, a) := digits (skipWs cs)
+  match a with
+  | '.' :: r => some (digits r).2
+  | _ => none
+
+/-- wavelength_match `^\s*[0-9]*\.[0-9]* ?a? +.*$` (IGNORECASE) -/
+def wl15 (s : String) : Bool :=
+  match wlPrefix s.toList with
+  | none => false
+  | some r =>
+    match r with
+    | ' ' :: _ => true
+    | c :: ' ' :: _ => c == 'a' || c == 'A'
+    | _ => false
+
+/-- positions (suffixes) where a case-insensitive literal occurs: list of the texts after each occurrence, left to right,
+paired with the number of characters before the occurrence -/
+def occurrences (p : String) : Nat → Cs → List (Nat × Cs)
+  | _, [] => []
+  | i, c :: r =>
+    let here := match ciLit p (c :: r) with | some rest => [(i, rest)] | none => []
+    here ++ occurrences p (i + 1) r
+
+/-- block_id_match `^\s*[0-9]*\.[0-9]* ?a?\s*([0-9]*)\s*([0-9]*).*/type *= *([a-zA-Z]*).*/isel *= * ([0-9]*)$` -/
+def blockId15 (s : String) : Option BlockId :=
+  match wlPrefix s.toList with
+  | none => none
+  | some r =>
+    let r := match r with | ' ' :: t => t | _ => r
+    let r := match r with | c :: t => if c == 'a' || c == 'A' then t else r | [] => r
+    let (g1, r) := digits (skipWs r)
+    let (g2, r) := digits (skipWs r)
+    -- only the last "/isel" can be followed by ` *= * [0-9]*$`
+    match (occurrences "/isel" 0 r).getLast? with
+    | none => none
+    | some (pIsel, suf) =>
+      let a := suf.dropWhile (· == ' ')
+      match a with
+      | '=' :: b =>
+        let sp := b.takeWhile (· == ' ')
+        let (ds, rest) := digits (b.dropWhile (· == ' '))
+        if sp.length ≥ 1 && rest == [] then
+          -- some "/type *=" must end before that "/isel"
+          let okType := (occurrences "/type" 0 r).any fun (q, t) =>
+            match t.dropWhile (· == ' ') with
+            | '=' :: _ => q + 5 + (t.takeWhile (· == ' ')).length < pIsel
+            | _ => false
+          if okType then
+            some { numN := if g1 = [] then none else some (natOf g1),
+                   numT := if g2 = [] then none else some (natOf g2),
+                   isel := if ds = [] then none else some (natOf ds) }
+          else none
+        else none
+      | _ => none
+
+/-- pec_index_header_match `^C\s*ISEL\s*WAVELENGTH\s*TRANSITION\s*TYPE` (IGNORECASE) -/
+def idxHeader15 (s : String) : Bool :=
+  match s.toList with
+  | c :: r =>
+    isC c && (match ciLit "ISEL" (skipWs r) with
+      | some r => match ciLit "WAVELENGTH" (skipWs r) with
+        | some r => match ciLit "TRANSITION" (skipWs r) with
+          | some r => (ciLit "TYPE" (skipWs r)).isSome
+          | none => false
+        | none => false
+      | none => false)
+  | [] => false
+
+/-- configuration_header_match `^C\s*Configuration\s*\(2S\+1\)L\(w-1/2\)\s*Energy \(cm\*\*-1\)$` (IGNORECASE) -/
+def cfgHeader15 (s : String) : Bool :=
+  match s.toList with
+  | c :: r =>
+    isC c && (match ciLit "Configuration" (skipWs r) with
+      | some r => match ciLit "(2S+1)L(w-1/2)" (skipWs r) with
+        | some r => match ciLit "Energy (cm**-1)" (skipWs r) with
+          | some r => r == []
+          | none => false
+        | none => false
+      | none => false)
+  | [] => false
+
+def natOpt (ds : Cs) : Option Nat := if ds = [] then none else some (natOf ds)
+
+def rateTypeOf (cs : Cs) : Option RateType :=
+  match String.ofList cs with
+  | "EXCIT" => some .excit
+  | "RECOM" => some .recom
+  | "CHEXC" => some .chexc
+  | _ => none
+
+/-- `([0-9]*\.[0-9]*)`: the text of the group and the rest -/
+def decimalGroup (cs : Cs) : Option (Cs × Cs) :=
+  let (ip, r) := digits cs
+  match r with
+  | '.' :: r' => let (fp, r'') := digits r'; some (ip ++ ['.'] ++ fp, r'')
+  | _ => none
+
+def isAlphaC (c : Char) : Bool := c.isAlpha
+
+/-- pec_hydrogen_transition_match
+`^C\s*([0-9]*)\.\s*([0-9]*\.[0-9]*)\s*N=\s*([0-9]*) - N=\s*([0-9]*)\s*([A-Z]*)` (IGNORECASE) -/
+def idxH15 (s : String) : Option (IdxMatch String) :=
+  match s.toList with
+  | c :: r =>
+    if !isC c then none else
+    let (g0, r) := digits (skipWs r)
+    match r with
+    | '.' :: r =>
+      match decimalGroup (skipWs r) with
+      | none => none
+      | some (g1, r) =>
+        match ciLit "N=" (skipWs r) with
+        | none => none
+        | some r =>
+          let wsRun := r.takeWhile isWs
+          let after := r.dropWhile isWs
+          let (g2, r2) := digits after
+          let tail : Option Cs :=
+            if g2 ≠ [] then ciLit " - N=" r2
+            else if wsRun.getLast? == some ' ' then ciLit "- N=" after else none
+          match tail with
+          | none => none
+          | some r =>
+            let (g3, r) := digits (skipWs r)
+            let g4 := (skipWs r).takeWhile isAlphaC
+            some { isel := natOpt g0, wl := pyFloat g1, up := natOpt g2, lo := natOpt g3, typ := rateTypeOf g4 }
+    | _ => none
+  | [] => none
+
+def inCls (c : Char) : Bool := c == '(' || c == ')' || c == '.' || isDig c || isWs c
+
+/-- the common tail `\s*([0-9]*\.[0-9]*)\s*([0-9]*)[\(\)\.0-9\s]*-\s*([0-9]*)[\(\)\.0-9\s]*([A-Z]*)` -/
+def idxTail (g0 : Cs) (r : Cs) : Option (IdxMatch String) :=
+  match decimalGroup (skipWs r) with
+  | none => none
+  | some (g1, r) =>
+    let (g2, r) := digits (skipWs r)
+    match r.dropWhile inCls with
+    | '-' :: r =>
+      let (g3, r) := digits (skipWs r)
+      let g4 := (r.dropWhile inCls).takeWhile isAlphaC
+      some { isel := natOpt g0, wl := pyFloat g1, up := natOpt g2, lo := natOpt g3, typ := rateTypeOf g4 }
+    | _ => none
+
+/-- pec_full_transition_match of `_scrape_metadata_hydrogen_like` (the dot after ISEL is mandatory) -/
+def idxHL15 (s : String) : Option (IdxMatch String) :=
+  match s.toList with
+  | c :: r =>
+    if !isC c then none else
+    let (g0, r) := digits (skipWs r)
+    match r with
+    | '.' :: r => idxTail g0 r
+    | _ => none
+  | [] => none
+
+/-- pec_full_transition_match of `_scrape_metadata_full` (`\.?`): first with the dot consumed, then without -/
+def idxF15 (s : String) : Option (IdxMatch String) :=
+  match s.toList with
+  | c :: r =>
+    if !isC c then none else
+    let (g0, r) := digits (skipWs r)
+    match r with
+    | '.' :: r' =>
+      match idxTail g0 r' with
+      | some m => some m
+      | none => idxTail g0 r
+    | _ => idxTail g0 r
+  | [] => none
+
+def isOrbLetter (c : Char) : Bool := "spdfg".toList.contains c.toLower
+
+/-- `((?:[0-9][SPDFG][0-9]\s)*)` -/
+def orbitals : Nat → Cs → Cs × Cs
+  | 0, cs => ([], cs)
+  | f + 1, cs =>
+    match cs with
+    | a :: b :: c :: d :: r =>
+      if isDig a && isOrbLetter b && isDig c && isWs d then
+        let (g, rest) := orbitals f r
+        (a :: b :: c :: d :: g, rest)
+      else ([], cs)
+    | _ => ([], cs)
+
+/-- `([0-9]*\.?[0-9]*)` -/
+def optDecimal (cs : Cs) : Cs × Cs :=
+  let (ip, r) := digits cs
+  match r with
+  | '.' :: r' => let (fp, r'') := digits r'; (ip ++ ['.'] ++ fp, r'')
+  | _ => (ip, r)
+
+def rstrip (cs : Cs) : Cs := (cs.reverse.dropWhile isWs).reverse
+
+/-- configuration_string_match
+`^C\s*([0-9]*)\s*((?:[0-9][SPDFG][0-9]\s)*)\s*\(([0-9]*\.?[0-9]*)\)([0-9]*)\(\s*([0-9]*\.?[0-9]*)\)` (IGNORECASE) -/
+def cfg15 (s : String) : Option (CfgMatch String) :=
+  match s.toList with
+  | c :: r =>
+    if !isC c then none else
+    let (g0, r) := digits (skipWs r)
+    let (g1, r) := orbitals r.length (skipWs r)
+    match skipWs r with
+    | '(' :: r =>
+      let (g2, r) := optDecimal r
+      match r with
+      | ')' :: r =>
+        let (g3, r) := digits r
+        match r with
+        | '(' :: r =>
+          let (g4, r) := optDecimal (skipWs r)
+          match r with
+          | ')' :: _ =>
+            some { id := natOpt g0, conf := String.ofList (lowerCs (rstrip g1)), spin := String.ofList g2,
+                   l := natOpt g3, j := String.ofList g4 }
+          | _ => none
+        | _ => none
+      | _ => none
+    | _ => none
+  | [] => none
+
+def lex15 : Lex15 String String String String where
+  fileHeader := fileHeader15
+  wl := wl15
+  blockId := blockId15
+  split := floatToks
+  idxHeader := idxHeader15
+  cfgHeader := cfgHeader15
+  idxH := idxH15
+  idxHL := idxHL15
+  idxF := idxF15
+  cfg := cfg15
+
+def typName : RateType → String
+  | .excit => "EXCIT" | .recom => "RECOM" | .chexc => "CHEXC"
+
+def text15 : K15 String String String → String
+  | .fileHeader n => rjn 5 n ++ "    /C 2 PHOTON EMISSIVITY COEFFICIENTS/"
+  | .blockHdr wl nN nT typ isel => rj 8 wl ++ " A" ++ rjn 5 nN ++ rjn 5 nT ++ " /FILMEM = bottom  /TYPE = " ++ typName typ
+      ++ " /INDM = T/ISEL = " ++ rjn 4 isel
+  | .data xs => cat (xs.map (rj 9))
+  | .comment => "C"
+  | .cfgHeader => "C  Configuration       (2S+1)L(w-1/2)    Energy (cm**-1)"
+  | .cfgLine id conf spin l j => "C" ++ rjn 6 id ++ "  " ++ lj 18 (conf.toUpper ++ " ") ++ "(" ++ spin ++ ")" ++ toString l
+      ++ "(" ++ rj 4 j ++ ")         0.0"
+  | .idxHeader => "C  ISEL  WAVELENGTH      TRANSITION       TYPE"
+  | .idxH isel wl up lo typ => "C" ++ rjn 5 isel ++ "." ++ rj 12 wl ++ "    N=" ++ rjn 2 up ++ " - N=" ++ rjn 2 lo ++ "    " ++ typName typ
+  | .idxC dot isel wl up lo typ => "C" ++ rjn 5 isel ++ (if dot then "." else " ") ++ rj 12 wl ++ "   " ++ rjn 3 up ++ "(2)1( 2.5)-"
+      ++ rjn 3 lo ++ "(2)0( 0.5)  " ++ typName typ
+
 end Cherab.Adf.Text
